@@ -3,6 +3,9 @@ package calls
 import (
 	"fmt"
 	"runtime/debug"
+	"strings"
+
+	"github.com/tetratelabs/wazero"
 
 	"github.com/tetratelabs/wazero/api"
 
@@ -171,6 +174,10 @@ func run(t *tape.Tape, cfg sim.Config, listen bool) (res sim.Result) {
 	var outcomes []string
 	failedDeep, callsAfterFail := 0, 0
 	for i := 0; i < ncalls && res.Violation == nil; i++ {
+		if !listen && cfg.Class != "overflow" && t.Chance(1, 12) && len(r.insts) < 6 {
+			r.laterInstantiation(pa, pb, i)
+			continue
+		}
 		k := t.Choose(len(r.insts))
 		in := r.insts[k]
 		fn := t.Choose(len(in.P.Funcs))
@@ -289,6 +296,74 @@ func run(t *tape.Tape, cfg sim.Config, listen bool) (res sim.Result) {
 	}
 	res.Sample = map[string]any{"plan_a": describePlan(pa), "plan_b": describePlan(pb), "calls": smp}
 	return
+}
+
+// laterInstantiation: another instance of plan A or B whose start function calls one of its functions.
+// The start function may trap, exit, or fail inside a (scripted) host call; instantiation then fails,
+// effects on OTHER instances (through imports, re-entrant host calls) persist, and everybody keeps working.
+func (r *runner) laterInstantiation(pa, pb *plan.Plan, step int) {
+	t := r.t
+	src, name, imp := pa, "", -1
+	if t.Chance(1, 2) && !r.insts[0].Closed {
+		src, imp = pb, 0 // (importing from "a" needs it to be still registered)
+	}
+	cp := *src
+	cp.HasStart, cp.StartFn, cp.StartArg = true, t.Choose(len(src.Funcs)), int32(t.Choose(100))
+	p := &cp
+	var impInst *plan.Inst
+	if imp >= 0 {
+		impInst = r.insts[imp]
+	}
+	in := plan.NewInst(p, name, impInst)
+	// the model runs the start function first
+	r.script, r.spos, r.events, r.hostErr = nil, 0, nil, ""
+	r.w.Events = nil
+	r.w.Depth, r.w.MaxDepthSeen = 0, 0
+	// the instance is visible to the scripted host (re-entry / close-other targets) only after success
+	_, mfail := r.w.APICall(in, p.StartFn, p.StartArg)
+	cm, err := r.rt.CompileModule(r.ctx, p.Encode())
+	if err != nil {
+		panic(fmt.Sprintf("harness: start plan does not compile: %v", err))
+	}
+	mod, ierr := r.rt.InstantiateModule(r.ctx, cm, wazero.NewModuleConfig().WithName(name))
+	what := fmt.Sprintf("step #%d instantiate %s with start f%d(%d)", step, p.Name, p.StartFn, p.StartArg)
+	kind, msg, code := classify(ierr)
+	r.res.Logf("%s -> %s %s model=%s hostcalls=%d", what, kind, msg, mfail, len(r.script))
+	if r.hostErr != "" {
+		r.res.Fail("host-call-sequence", "%s: %s", what, r.hostErr)
+		return
+	}
+	if r.spos != len(r.script) {
+		r.res.Fail("host-call-sequence", "%s: the start function made %d host calls, the model predicts %d", what, r.spos, len(r.script))
+		return
+	}
+	switch {
+	case mfail == nil:
+		if ierr != nil {
+			r.res.Fail("error-kind", "%s: model predicts success, wazero returned %s %q", what, kind, msg)
+			return
+		}
+		r.insts = append(r.insts, in)
+		r.mods = append(r.mods, mod)
+	case mfail.Kind == "exit":
+		// a start function that exits: instantiation returns the exit error (exit code 0 included)
+		if kind != "exit" || code != mfail.ExitCode {
+			r.res.Fail("error-kind", "%s: model predicts exit error with code %d, wazero returned %s %q code %d", what, mfail.ExitCode, kind, msg, code)
+			return
+		}
+	default:
+		if ierr == nil {
+			r.res.Fail("error-kind", "%s: model predicts %s %q, instantiation succeeded", what, mfail.Kind, mfail.Msg)
+			return
+		}
+		// the failure is wrapped ("start function[..] failed: ..."): the original must be recognisable
+		if !strings.Contains(ierr.Error(), strings.TrimPrefix(mfail.Msg, "wasm error: ")) {
+			r.res.Fail("error-kind", "%s: model predicts %s %q, wazero returned %q", what, mfail.Kind, mfail.Msg, msg)
+			return
+		}
+	}
+	r.compareState(what)
+	r.res.Stat("fault.later_instantiation_with_start", 1)
 }
 
 func b2i(b bool) int {
